@@ -252,6 +252,20 @@ class ModuleEnv:
                     raise Unsupported(f'mutation of possibly aliased list {root.id}')
                 eng.assign(st, node.func.value, list_append(base, args[0]), None)
                 return VNone()
+            if name == 'pop' and len(args) == 0:
+                d = eng.decide(st, base.length == 0)
+                if d is None:
+                    raise ForkReq(base.length == 0)
+                if d is True:
+                    raise RaiseReq('IndexError')
+                root = node.func.value
+                while isinstance(root, (ast.Attribute, ast.Subscript)):
+                    root = root.value
+                if isinstance(root, ast.Name) and root.id in st.aliased:
+                    raise Unsupported(f'mutation of possibly aliased list {root.id}')
+                last = list_get(base, base.length - 1)
+                eng.assign(st, node.func.value, VList(base.length - 1, base.sort, base.arrs), None)
+                return last
             raise Unsupported(f'list.{name}')
         if isinstance(base, VSlice) and name == 'indices' and len(args) == 1:
             n = eng.need_int(args[0], st, node).t
